@@ -140,6 +140,10 @@ def r16_2(run):
     uc = [c for c in calls_in(cr) if dotted(c.func) == rv + '.update']
     want = ["kw['nickname']", "kw['idhash']", "kw['orhash']", "kw['modified']", "kw['ip']", "kw['orport']", "kw['dirport']"]
     ok = len(uc) == 1 and [src(a) for a in uc[0].args] == want
+    if not ok and len(uc) == 1:
+        # the fields as named parameters instead of a **kw dict: the parser passes them by keyword, so the parameter names are the keys
+        names = ['nickname', 'idhash', 'orhash', 'modified', 'ip', 'orport', 'dirport']
+        ok = [dotted(a) for a in uc[0].args] == names and set(names) <= set(cr.params)
     run.ob('R16.2', cr, uc[0] if uc else cr.node, 'nickname, identity, address and ports come from the current entry', ok, slot='update-args', message='router.update(%s)' % ([src(a) for a in uc[0].args] if uc else ''))
     for c in uc:
         for n in g.nodes_containing(c):
@@ -276,11 +280,16 @@ def r16_4(run):
     r2 = [r for r in walk_unit(x2h) if isinstance(r, ast.Return)]
     s1 = src(r1[0].value) if r1 else ''
     s2 = src(r2[0].value) if r2 else ''
-    ok1 = s1.startswith("'$' +") and 'b2a_hex(b64decode(' in s1 and "+ '=')" in s1 and '.upper()' in s1
+    # upper-case hex of the decoded digest: hexlify / b2a_hex + .upper(), or b16encode (upper-case by definition)
+    ok1 = s1.startswith("'$' +") and "+ '=')" in s1 and ((('b2a_hex(b64decode(' in s1 or 'hexlify(b64decode(' in s1) and '.upper()' in s1) or
+                                                         ('b16encode(b64decode(' in s1 and '.lower()' not in s1))
     run.ob('R16.4', h2x, h2x.node, "hexIdFromHash = '$' + HEX(b64decode(hash + '='))", ok1, slot='to-hex', message='hexIdFromHash returns %s' % s1)
     ok2 = 'b64encode(a2b_hex(' in s2 and '[:-1]' in s2
     strips = any(isinstance(n, ast.Compare) and const(n.comparators[0]) == '$' for n in walk_unit(x2h)) and \
-        any(isinstance(n, ast.Assign) and src(n.value) == '%s[1:]' % x2h.params[0] for n in walk_unit(x2h))
+        (any(isinstance(n, ast.Assign) and src(n.value) == '%s[1:]' % x2h.params[0] for n in walk_unit(x2h)) or
+         any(isinstance(n, ast.IfExp) and src(n.body) == '%s[1:]' % x2h.params[0] and src(n.orelse) == x2h.params[0] and
+             isinstance(n.test, ast.Compare) and isinstance(n.test.ops[0], ast.Eq) and const(n.test.comparators[0]) == '$' for n in walk_unit(x2h)))
+    ok2 = ok2 or ('b64encode(a2b_hex(' in s2 and s2.rstrip().endswith('[:-1]'))
     run.ob('R16.4', x2h, x2h.node, "hashFromHexId = b64encode(a2b_hex(hex without '$')) without the '=' pad", ok2 and strips, slot='to-hash', message='hashFromHexId returns %s' % s2)
 
 
